@@ -926,6 +926,10 @@ class Exec:
         for pr in place['p']:
             op = pr[0]
             if op == 'field':
+                if cur[0] == 'symidx':
+                    # a field of TABLE[i] with a symbolic i (`if let Some(s) = TABLE[byte as usize]`): the element is selected
+                    # first (forking over distinct variants), the projection continues in a temporary -- reads only
+                    cur = ('cell', Cell(self.read_lv(cur)), ())
                 if cur[0] != 'cell':
                     raise EngineError('field of non-cell place')
                 cur = ('cell', cur[1], cur[2] + (pr[1],))
